@@ -27,6 +27,7 @@ CONSTANTS Species,    \* lower-cased symbols of plasma species (an element, one 
           SameFamily, \* TRUE: all steps of one behaviour address the same family (cross-family runs use FALSE)
           MaxMulti,   \* max number of keys in one multi-key update (0 = none)
           InstFronts, \* install_* front-ends explored (subset of Fronts; {} = none)
+          FieldRejects, \* BOOLEAN: explore writes with one unusable field (RejectField)
           Probes      \* subset of BOOLEAN: does the caller read every key back after every call (TRUE) or only at the end
 
 VARIABLES store, hist,
@@ -136,6 +137,23 @@ Reject(k, kind, api) ==
   /\ UNCHANGED store
   /\ Log([op |-> "reject", api |-> api, k |-> k, kind |-> kind])
 
+\* the data handed to a single-entry write is a dictionary with these fields (a wavelength is a bare number)
+Fields(f) == CASE f \in Adf11Fams \cup {"thermal_cx"}            -> {"ne", "te", "rates"}
+               [] f \in {"pec_excitation", "pec_recombination"} -> {"ne", "te", "rate"}
+               [] f = "pec_thermal_cx"                          -> {"ne", "te", "td", "rate"}
+               [] f = "wavelength"                              -> {}
+               [] f = "beam_cx"                                 -> {"qref", "eb", "qeb", "ti", "qti", "ni", "qni", "z", "qz", "b", "qb"}
+               [] OTHER                                         -> {"e", "n", "t", "sen", "st", "eref", "nref", "tref", "sref"}
+Hows == {"missing", "none", "text"}       \* the field is absent / None / a word
+\* a single-entry add/update one of whose fields is unusable: the call raises and nothing may change (in particular the
+\* key's own file: the data must be validated before the file is opened for writing).  Explored as the first call on an
+\* empty repository and right after a valid write of the same key.
+RejectField(k, fld, how, api) ==
+  /\ fld \in Fields(k[1])
+  /\ (IF Len(hist) = 0 THEN TRUE ELSE (hist[Len(hist)].op = "write" /\ hist[Len(hist)].k = k))
+  /\ UNCHANGED store
+  /\ Log([op |-> "reject", api |-> api, k |-> k, kind |-> how, fld |-> fld])
+
 FamOf(e) == IF e.op \in {"multi", "rejmulti", "install"} THEN e.f ELSE e.k[1]
 FamOK(f) == IF SameFamily /\ Len(hist) > 0 THEN FamOf(hist[1]) = f ELSE TRUE
 
@@ -151,6 +169,8 @@ NextStep ==
                 \/ \E S \in SUBSET {k1, k2} : RejectedMulti(f, {k1, k2}, w, S)
   \/ \E k \in AllKeys, kind \in {"charge", "shape", "type"}, api \in Apis :
         /\ FamOK(k[1]) /\ Reject(k, kind, api)
+  \/ \E k \in AllKeys, how \in Hows, api \in Apis : \E fld \in Fields(k[1]) :
+        /\ FieldRejects /\ FamOK(k[1]) /\ RejectField(k, fld, how, api)
   \/ \E fr \in InstFronts, s \in Species, d \in Donors :
         /\ FrontFam(fr) \in Families /\ FamOK(FrontFam(fr))
         /\ (fr \notin {"adf11ccd", "adf21", "adf22bmp", "adf22bme"} => d = CHOOSE x \in Donors : TRUE)     \* donor irrelevant
